@@ -130,6 +130,14 @@ func (vc *VC) render(obs []*Oblig, dialect string, timeoutMs int) string {
 		}
 		b.WriteByte('\n')
 	}
+	if vc.renderAllDecls {
+		for i := maxIdx; i < len(vc.items); i++ {
+			if it := vc.items[i]; it.kind == itDecl || (it.kind == itCopy && dialect != "cvc5") {
+				b.WriteString(it.text)
+				b.WriteByte('\n')
+			}
+		}
+	}
 	if len(obs) == 1 {
 		o := obs[0]
 		fmt.Fprintf(&b, "(assert %s)\n(assert (not %s))\n", o.pc.S, o.goal.S)
